@@ -510,7 +510,14 @@ func c08r5(c *core.Ctx) {
 					continue
 				}
 				// panics with an error value produced by option/conversion code
-				if mi, ok := pn.X.(*ssa.MakeInterface); ok && isErrorType(mi.X.Type()) || isErrorType(pn.X.Type()) {
+				isErr := isErrorType(pn.X.Type())
+				switch x := pn.X.(type) {
+				case *ssa.MakeInterface:
+					isErr = isErr || isErrorType(x.X.Type())
+				case *ssa.ChangeInterface:
+					isErr = isErr || isErrorType(x.X.Type())
+				}
+				if isErr {
 					n++
 					c.Fail(core.SSAName(f)+"|panic-on-conversion-error", p.Pos(pn.Pos()), "a conversion/configuration error is raised as a panic on the path of risor.Eval/EvalCode/Call instead of being returned: a global of an unsupported Go type crashes the caller")
 				}
